@@ -247,6 +247,8 @@ func (e *SpecEnv) resolveType(t spec.TypeExpr) (types.Type, string, bool) {
 		return nil, "(Array String Bool)", true
 	case "intset":
 		return nil, "(Array Int Bool)", true
+	case "relang":
+		return nil, "RegLan", true
 	}
 	if _, ok := vc.S.Extra[t.Name]; ok {
 		return nil, t.Name, true
@@ -810,6 +812,64 @@ func (e *SpecEnv) call(x *spec.Call) Val {
 				ms := vc.S.Sort(v.T)
 				return Val{Sort: fmt.Sprintf("(Array %s Bool)", vc.S.Sort(mt.Key())), Term: mapDom(ms, e.termOf(v))}
 			}
+		}
+	case "reFull", "langOf":
+		// reFull("pat"): the set of strings matched by pat as a whole; langOf(re): the set of strings s with re.MatchString(s)
+		if need(1) {
+			pat := ""
+			if sl, ok := x.Args[0].(*spec.StrLit); ok {
+				pat = sl.Val
+				if fname == "reFull" {
+					pat = `\A(?:` + pat + `)\z`
+				}
+			} else {
+				rv := arg(0)
+				if rv.Re == nil {
+					return e.fail(x, "%s: argument must be a regex literal or a regexp variable with a constant pattern", fname)
+				}
+				pat = *rv.Re
+			}
+			re, err := RegexToSMT(pat)
+			if err != nil {
+				return e.fail(x, "%s: %v", fname, err)
+			}
+			return Val{Sort: "RegLan", Term: re}
+		}
+	case "reLit":
+		if need(1) {
+			return Val{Sort: "RegLan", Term: fmt.Sprintf("(str.to_re %s)", argT(0))}
+		}
+	case "reCat", "reAlt", "reAnd":
+		if len(x.Args) >= 1 {
+			op := map[string]string{"reCat": "re.++", "reAlt": "re.union", "reAnd": "re.inter"}[fname]
+			var ts []string
+			for i := range x.Args {
+				ts = append(ts, argT(i))
+			}
+			if len(ts) == 1 {
+				return Val{Sort: "RegLan", Term: ts[0]}
+			}
+			return Val{Sort: "RegLan", Term: "(" + op + " " + strings.Join(ts, " ") + ")"}
+		}
+	case "reNot":
+		if need(1) {
+			return Val{Sort: "RegLan", Term: fmt.Sprintf("(re.comp %s)", argT(0))}
+		}
+	case "reOpt":
+		if need(1) {
+			return Val{Sort: "RegLan", Term: fmt.Sprintf("(re.opt %s)", argT(0))}
+		}
+	case "reStar":
+		if need(1) {
+			return Val{Sort: "RegLan", Term: fmt.Sprintf("(re.* %s)", argT(0))}
+		}
+	case "rePlus":
+		if need(1) {
+			return Val{Sort: "RegLan", Term: fmt.Sprintf("(re.+ %s)", argT(0))}
+		}
+	case "inLang":
+		if need(2) {
+			return Val{T: B, Term: fmt.Sprintf("(str.in_re %s %s)", argT(0), argT(1))}
 		}
 	case "emptyset":
 		if need(0) {
